@@ -35,7 +35,7 @@ ASSUMPTIONS = ["a value read back from sqlite as NULL is accepted where NaN was 
                "with a column prefix the check renames the columns of the table returned by load_table back to the "
                "bare names (presence of every prefixed name is checked first) and then calls table_to_source_list, "
                "which only knows the bare names",
-               "1 ulp of a double = numpy.spacing(|x|); single precision = relative error <= 2**-23",
+               "full double precision = the value read back is bit-identical (shortest-repr text round trips exactly); single precision = relative error <= 2**-23",
                "a numpy `masked` element is not a NaN and not a string: it counts as 'not preserved'",
                "metadata content is not compared (the property only lists it as a configuration axis); the meta dict "
                "has string values like the one the aegean CLI builds",
@@ -231,7 +231,7 @@ def cmp_cell(name, exp, got, fmt):
     rel = err / abs(exp) if exp != 0 else err
     if fmt == "fits":
         return (None, rel) if rel <= F32_REL else ("float32_precision", rel)
-    return (None, rel) if err <= float(np.spacing(abs(float(exp)))) else ("double_precision", rel)
+    return (None, rel) if err == 0.0 else ("double_precision", rel)
 
 
 # ---------------------------------------------------------------------------
